@@ -86,6 +86,11 @@ type Violation struct {
 	Confirmed string     `json:"confirmed,omitempty"`
 	ReplayOut string     `json:"replay_output,omitempty"`
 	Path      string     `json:"-"`
+	// Hooked: the path performs an interfering operation at a point that exists
+	// only in the engine's mutex model (right after an Unlock/RUnlock). Such a
+	// schedule cannot be forced natively without a hook in /repo; the finding
+	// is confirmed by symbolic re-execution of the decision prefix instead.
+	Hooked bool `json:"hooked,omitempty"`
 }
 
 // TraceOut is one harness-primitive result in call order, concretised from the model.
@@ -94,6 +99,7 @@ type TraceOut struct {
 	I    int64  `json:"i,omitempty"`
 	B    bool   `json:"b,omitempty"`
 	S    string `json:"s,omitempty"` // hex
+	Hook bool   `json:"hook,omitempty"`
 }
 
 type queue struct {
@@ -294,8 +300,14 @@ func (w *W) assertCond(c *Term, msg string, pos token.Pos) {
 // primary solver in the current scope) and records the counterexample.
 func (w *W) recordViolation(kind, msg string, f *Term) {
 	key := kind + ":" + msg
+	hookedPath := false
+	for _, tv := range w.trace {
+		if tv.Hook && !(tv.T != nil && tv.T.IsConst() && tv.T.Int() == 0) {
+			hookedPath = true
+		}
+	}
 	w.e.mu.Lock()
-	seen := w.e.violSeen[key]
+	seen := w.e.violSeen[key] || (hookedPath && w.e.violSeen[key+":hooked"])
 	w.e.mu.Unlock()
 	if seen {
 		return
@@ -340,6 +352,11 @@ func (w *W) recordViolation(kind, msg string, f *Term) {
 	}
 	v := &Violation{Kind: kind, Msg: msg, Harness: w.e.entry.Name(), Decisions: append([]int32(nil), w.decisions...)}
 	v.Trace = w.concretizeTrace(env)
+	v.Hooked = hookedPath
+	if hookedPath {
+		// a natively replayable witness of the same violation is still wanted
+		key += ":hooked"
+	}
 	w.e.mu.Lock()
 	defer w.e.mu.Unlock()
 	if w.e.violSeen[key] {
@@ -380,13 +397,13 @@ func (w *W) concretizeTrace(env map[string]uint64) []TraceOut {
 					}
 				}
 			}
-			out = append(out, TraceOut{Kind: "s", S: fmt.Sprintf("%x", raw)})
+			out = append(out, TraceOut{Kind: "s", S: fmt.Sprintf("%x", raw), Hook: tv.Hook})
 		case "bool":
-			out = append(out, TraceOut{Kind: "b", B: Eval(tv.T, env, memo) == 1})
+			out = append(out, TraceOut{Kind: "b", B: Eval(tv.T, env, memo) == 1, Hook: tv.Hook})
 		case "byte":
-			out = append(out, TraceOut{Kind: "i", I: int64(Eval(tv.T, env, memo))})
+			out = append(out, TraceOut{Kind: "i", I: int64(Eval(tv.T, env, memo)), Hook: tv.Hook})
 		default:
-			out = append(out, TraceOut{Kind: "i", I: sext64(Eval(tv.T, env, memo), tv.T.W)})
+			out = append(out, TraceOut{Kind: "i", I: sext64(Eval(tv.T, env, memo), tv.T.W), Hook: tv.Hook})
 		}
 	}
 	return out
